@@ -347,6 +347,16 @@ def _make_operand(W, spec, dense, copy=None):
     k = spec["kind"]
     if k.startswith("scipy_"):
         m = {"scipy_csr": sps.csr_array, "scipy_csc": sps.csc_array, "scipy_coo": sps.coo_array}[k](dense)
+        if spec.get("stored_zeros") and dense.ndim == 2:
+            # the same matrix with up to three of its zeros STORED explicitly (canonical for scipy: sorted, no duplicates);
+            # the earliest zeros are taken so that stored non-zeros follow them (seeded C20-m5: pos[1] = count_nonzero)
+            d2 = dense.copy()
+            for q in np.argwhere(dense == 0)[:3]:
+                d2[tuple(q)] = 1
+            mc = sps.coo_array(d2)
+            mc.data[dense[mc.row, mc.col] == 0] = 0
+            m = {"scipy_csr": mc.tocsr, "scipy_csc": mc.tocsc, "scipy_coo": lambda: mc}[k]()
+            assert np.array_equal(m.toarray(), dense)
         if spec.get("noncanon"):
             m = _noncanonical(np, sps, m, spec["noncanon"])
         if k == "scipy_coo":
@@ -736,6 +746,8 @@ def spec_variants(ndim, rng, widths=(64,)):
     w = rng.choice(widths)
     if ndim == 2:
         out += [dict(kind="scipy_csr", ndim=2), dict(kind="scipy_csc", ndim=2), dict(kind="scipy_coo", ndim=2),
+                dict(kind="scipy_coo", ndim=2, stored_zeros=True),
+                dict(kind=rng.choice(["scipy_csr", "scipy_csc"]), ndim=2, stored_zeros=True),
                 dict(kind="csf", ndim=2, pw=w, cw=w), dict(kind="csf", ndim=2, order=[1, 0], pw=w, cw=w)]
     if ndim >= 2:
         out.append(dict(kind="csf", ndim=ndim, pw=w, cw=w))
